@@ -113,6 +113,127 @@ def obs_scope(wn, w):
             'ilis': [[i.id, i.status, i.definition()] for i in w.ilis()]}
 
 
+def obs_synset_x(wn, s):
+    return {'ref': _synref(s),
+            'get_related': [_synref(t) for t in s.get_related()],
+            'hypernyms': [_synref(t) for t in s.hypernyms()],
+            'relations': {k: [_synref(t) for t in v] for k, v in s.relations().items()},
+            'by_type': {k: [_synref(t) for t in s.get_related(k)] for k in s.relations()},
+            'translate': {_spec(l): [_synref(t) for t in s.translate(lexicon=_spec(l))] for l in wn.lexicons()},
+            'closure_hypernym': [_synref(t) for t in s.closure('hypernym', 'instance_hypernym')],
+            'hypernym_paths': [[_synref(t) for t in p] for p in s.relation_paths('hypernym', 'instance_hypernym')]}
+
+
+def obs_sense_x(wn, s):
+    return {'ref': [_spec(s.lexicon()), s.id],
+            'get_related': [[_spec(t.lexicon()), t.id] for t in s.get_related()],
+            'get_related_synsets': [_synref(t) for t in s.get_related_synsets()],
+            'closure': [[_spec(t.lexicon()), t.id] for t in s.closure()]}
+
+
+def identity_violations(wn, w):
+    """objects reached by different routes that denote the same stored entity are equal and hash
+    alike; different entities are unequal (stored entities only: placeholders have no rowid)"""
+    objs = []
+
+    def add(kind, o, route):
+        if getattr(o, '_id', 0):
+            try:
+                objs.append(((kind, _spec(o.lexicon()), o.id), o, route))
+            except Exception:
+                pass
+    for x in w.words():
+        add('w', x, 'words()')
+        for s in x.senses():
+            add('s', s, 'word.senses()')
+    for s in w.senses():
+        add('s', s, 'senses()')
+        for t in s.get_related():
+            add('s', t, 'sense.get_related()')
+    for y in w.synsets():
+        add('y', y, 'synsets()')
+        for m in y.senses():
+            add('s', m, 'synset.senses()')
+        for t in y.get_related():
+            add('y', t, 'synset.get_related()')
+        for t in y.hypernyms():
+            add('y', t, 'synset.hypernyms()')
+    bad = []
+    by_key = {}
+    for key, o, route in objs:
+        by_key.setdefault(key, []).append((o, route))
+    for key, lst in by_key.items():
+        o0, r0 = lst[0]
+        for o, r in lst[1:]:
+            if not (o == o0) or hash(o) != hash(o0) or o not in {o0} or o0 not in {o: 1}:
+                bad.append(['same-entity-unequal-or-hash-differs', list(key), r0, r])
+                break
+    keys = list(by_key)
+    reps = [by_key[k][0][0] for k in keys]
+    for i in range(len(keys)):
+        for j in range(i + 1, len(keys)):
+            if reps[i] == reps[j]:
+                bad.append(['different-entities-equal', list(keys[i]), list(keys[j])])
+                if len(bad) > 5:
+                    return bad
+    return bad
+
+
+def obs_scope_x(wn, w):
+    o = obs_scope(wn, w)
+    o['identity'] = identity_violations(wn, w)
+    o['synsets_x'] = [obs_synset_x(wn, x) for x in w.synsets()]
+    o['senses_x'] = [obs_sense_x(wn, x) for x in w.senses()]
+    return o
+
+
+def battery(wn, op):
+    import warnings
+    with warnings.catch_warnings(record=True) as caught:
+        warnings.simplefilter('always')
+        try:
+            kw = {}
+            if 'expand' in op and op['expand'] is not None:
+                kw['expand'] = op['expand']
+            if op.get('normalizer') is False:
+                kw['normalizer'] = None
+            if op.get('all_forms') is False:
+                kw['search_all_forms'] = False
+            w = wn.Wordnet(lexicon=op.get('lexicon'), lang=op.get('lang'), **kw)
+        except wn.Error:
+            return 'error'
+    missing = []
+    for c in caught:
+        msg = str(c.message)
+        if 'lexicon dependencies not available:' in msg:
+            missing += msg.split(':', 1)[1].split()
+    return {'S': [_spec(l) for l in w.lexicons()], 'E': [_spec(l) for l in w.expanded_lexicons()],
+            'missing': missing, 'scope': obs_scope_x(wn, w)}
+
+
+def canon_battery(b, sort_forms_tail=True):
+    if b == 'error':
+        return b
+    sc = canon_scope(b['scope'], sort_forms_tail)
+    xs = []
+    for x in b['scope'].get('synsets_x', []):
+        xs.append({'ref': x['ref'], 'get_related': sorted(x['get_related'], key=_k),
+                   'hypernyms': sorted(x['hypernyms'], key=_k),
+                   'relations': {k: sorted(v, key=_k) for k, v in sorted(x['relations'].items())},
+                   'by_type': {k: sorted(v, key=_k) for k, v in sorted(x.get('by_type', {}).items())},
+                   'translate': {k: (sorted(v, key=_k) if isinstance(v, list) else v) for k, v in sorted(x.get('translate', {}).items())},
+                   'closure_hypernym': sorted(x['closure_hypernym'], key=_k),
+                   'hypernym_paths': sorted(x['hypernym_paths'], key=_k)})
+    sc['synsets_x'] = sorted(xs, key=_k)
+    ys = []
+    for x in b['scope'].get('senses_x', []):
+        ys.append({'ref': x['ref'], 'get_related': sorted(x['get_related'], key=_k),
+                   'get_related_synsets': sorted(x['get_related_synsets'], key=_k),
+                   'closure': sorted(x['closure'], key=_k)})
+    sc['senses_x'] = sorted(ys, key=_k)
+    return {'S': b['S'], 'E': b['E'], 'missing': sorted(b['missing']), 'scope': sc}
+
+
 def bases_of(lx):
     out = []
     cur = lx.extends()
@@ -275,6 +396,8 @@ def run_ops_impl(wn, wnenv, scenario, batch_size=None):
                 outs.append({'ok': True})
             elif op['k'] == 'obs':
                 outs.append(obs_all(wn))
+            elif op['k'] == 'battery':
+                outs.append(battery(wn, op))
             elif op['k'] == 'lexicons':
                 outs.append([_spec(l) for l in wn.lexicons(lexicon=op.get('lexicon'), lang=op.get('lang'))])
             else:
